@@ -300,3 +300,19 @@ _m("C19",
    "symlink semantics of the platform.",
    "parametric effect summaries at the link_to entry points + gate-cut reachability + provenance of the stored target",
    "exhaustive static analysis in the link_to configurations (necessary conditions)")
+
+_m("C12",
+   "Sibling agreement. For every sync/async pair of one operation (public `X_sync`/`X`, SyncWriter/Writer, SyncReader/Reader, "
+   "SyncToLinker/ToLinker, RemoveOpts::remove_sync/remove and the internal pairs insert/insert_async, find/find_async, the bucket "
+   "readers, the content open/read/copy/reflink/hard_link/rm/close primitives) and for every function across the async-std and "
+   "tokio builds of the same feature set, the abstract signature is compared: (1) the set of filesystem effects reachable "
+   "(kind, open flags, role, provenance shape relative to the entry point's cache / key / destination parameters, runtime crates "
+   "normalised), (2) the set of crate / ssri error variants constructed, (3) which role functions are called with which "
+   "parameter positions and which verification primitives are used. Differences must match the committed accepted-differences "
+   "table (one entry: the async keyed writer never maps memory — staging strategy only). The per-operation decision tables, "
+   "field maps, guard structure and verify/materialise order of both siblings are each compared with one oracle under C04, C05, "
+   "C06, C08, C11, C18, which forces them to agree with each other.",
+   "Equality of results for programs; scheduler-dependent behaviour; error message texts and buffer sizes (not part of the "
+   "classification).",
+   "cross-checking of sibling implementations over abstract signatures (effect sets, error variants, role calls)",
+   "exhaustive static comparison of all sibling pairs in every async configuration (necessary conditions)")
